@@ -1,6 +1,8 @@
 import BfeVerif.C41.Proofs
 import BfeVerif.C41.Select
 import BfeVerif.C41.Serve
+import BfeVerif.C41.Records
+import BfeVerif.C41.Reload
 /-!
   C41 — TLS negotiation picks mutually supported parameters and resists downgrade.
   Property theorems only.  All are about `readClientHello` of `Model.lean`, i.e. about the decisions taken
@@ -490,6 +492,73 @@ theorem C41_rule_applied (t : RuleTable Rule) (cfg : Config) (vip : Option Strin
     rcases C41_alpn_partial hp hne with hm | ⟨he, _, h2, _⟩
     · exact Or.inl hm.2
     · exact Or.inr ⟨he, h2⟩
+
+/-! ## Reload histories (tlsConfLoad) -/
+
+/-- **A rejected reload changes nothing.**  A configuration file that does not pass the loader's validation (not JSON, no
+    Version, unknown certificate, invalid grade / protocol list / VIP, ClientAuth without a CA, duplicated VIP or name, a
+    name its certificate does not cover, a missing CA file) leaves the state — both maps — exactly as it was. -/
+theorem C41_reload_rejected_changes_nothing (certs : List (String × List String)) (ca : List String) (st : TlsState)
+    (c : ConfFile) (h : validConf certs ca c = false) : loadStep certs ca st c = st := by
+  unfold loadStep
+  cases c with
+  | garbage => rfl
+  | noVersion => rfl
+  | products ps => simp [h]
+
+/-- **An accepted reload replaces everything.**  After a valid file the state is that file's configuration, whatever was
+    loaded before: no VIP, name, rule or certificate binding of an earlier configuration survives. -/
+theorem C41_reload_accepted_replaces (certs : List (String × List String)) (ca : List String) (st st' : TlsState)
+    (ps : List ProdConf) (h : validConf certs ca (.products ps) = true) :
+    loadStep certs ca st (.products ps) = some ps ∧ loadStep certs ca st (.products ps) = loadStep certs ca st' (.products ps) := by
+  unfold loadStep
+  simp [h]
+
+/-- **Only the last accepted configuration matters**, step by step over any history of reloads; hence every rule / certificate
+    lookup and every negotiation (`ruleTableOf`, `certTableOf`, `serve`) after the history is a function of that
+    configuration alone. -/
+theorem C41_reload_last_accepted (certs : List (String × List String)) (ca : List String) (st : TlsState)
+    (hist : List ConfFile) (c : ConfFile) :
+    stateAfter certs ca st (hist ++ [c]) =
+      (match c with
+       | .products ps => if validConf certs ca c then some ps else stateAfter certs ca st hist
+       | _ => stateAfter certs ca st hist) := by
+  rw [stateAfter_append]
+  unfold loadStep
+  cases c <;> rfl
+
+/-! ## Delivery of the hello -/
+
+/-- **Segmentation does not matter.**  However the client (or the network) cuts a well-formed ClientHello message into
+    handshake records — and whatever follows it —, `readHandshake` hands exactly that message to `readClientHello`.
+    (TCP-level chunking below the record layer is exercised by the `rw` stream: 1-byte reads, empty reads, data+EOF.) -/
+theorem C41_segmentation (recs : List (List UInt8)) (hand msg tail : List UInt8)
+    (hm : 4 ≤ msg.length) (hw : msg.length = 4 + declLen msg) (he : hand ++ recs.flatten = msg ++ tail) :
+    ∃ rest, readHandshake recs hand = some (msg, rest) := by
+  induction recs generalizing hand with
+  | nil =>
+    simp only [List.flatten_nil, List.append_nil] at he
+    unfold readHandshake
+    have hc : complete hand = some (hand.take (4 + declLen hand), hand.drop (4 + declLen hand)) := by
+      unfold complete
+      have h4 : 4 ≤ hand.length := by rw [he, List.length_append]; omega
+      have hd : declLen hand = declLen msg := by rw [he, declLen_prefix msg tail hm]
+      rw [if_pos]
+      refine ⟨h4, ?_⟩
+      rw [hd, ← hw, he, List.length_append]; omega
+    have := complete_of_prefix (x := []) hm hw (by simpa using he) hc
+    exact ⟨_, by rw [hc, this]⟩
+  | cons r rs ih =>
+    unfold readHandshake
+    cases hc : complete hand with
+    | some p =>
+      obtain ⟨m, rest⟩ := p
+      have := complete_of_prefix (x := (r :: rs).flatten) hm hw he hc
+      exact ⟨rest, by rw [this]⟩
+    | none =>
+      simp only
+      apply ih
+      simpa [List.flatten_cons, List.append_assoc] using he
 
 /-! Non-vacuity: concrete accepted hellos on each path (run by the kernel). -/
 example : readClientHello wCfg none wHello wNoLookups =
